@@ -24,7 +24,7 @@ REL = 1e-10
 
 
 def budget(tier):
-    return {"shards": 8 if tier == "quick" else 14, "deadline_s": 45 if tier == "quick" else 600}
+    return {"shards": 14, "deadline_s": 45 if tier == "quick" else 600}
 
 
 def c_to(unit, c):
@@ -220,7 +220,7 @@ def gen_case(rng):
 
 
 def run(ctx):
-    total = 4000 if ctx.tier == "quick" else 300000
+    total = 40000 if ctx.tier == "quick" else 1500000
     for _ in range(ctx.share(total)):
         if not ctx.time_left():
             break
